@@ -141,6 +141,21 @@ def worker(args):
                 out["orig_solvable"] = ("Solver failed" in str(e_) or "return_success" in str(e_))
                 out["orig_solve_error"] = str(e_)[:200]
             B2 = rebuild(o2, B)
+            # the loaded OCP's symbols must be usable: members of their accessor lists, accepted by set_value
+            memb = []
+            for name, lst in (("states", o2.states), ("controls", o2.controls), ("algebraics", o2.algebraics), ("qstates", o2.qstates)):
+                memb += [name for s_ in lst if s_ not in lst]
+            for g_ in ("", "control", "control+"):
+                memb += ["parameters[%s]" % g_ for s_ in o2.parameters[g_] if s_ not in o2.parameters[g_]]
+                memb += ["variables[%s]" % g_ for s_ in o2.variables[g_] if s_ not in o2.variables[g_]]
+            out["membership_failures"] = sorted(set(memb))
+            off_ = 0
+            for g_, p_, d_ in B2.pdecl:
+                if g_ == "":
+                    n_ = p_.numel()
+                    vals_ = case["param_values"]["p"][off_:off_ + n_]
+                    o2.set_value(p_, ca.DM([float(Fr(v)) for v in vals_]).reshape(p_.shape))   # same values again
+                    off_ += n_
             loaded = c13.observe_nlp(B2, case, points, rockit)
             loaded["solver"] = rec.get(loaded.pop("opti_id"))
             out["before"], out["orig"], out["loaded"] = before, orig, loaded
@@ -158,7 +173,8 @@ def worker(args):
 
 def multi_worker(args):
     """save / load of a multi-stage OCP (stages, clones, master variables, coupling)"""
-    mc, points, when = args
+    mc, points, when = args[:3]
+    late = args[3] if len(args) > 3 else None
     from ..common import setup_rockit_path, time_limit
     rockit = setup_rockit_path()
     import io, contextlib
@@ -171,6 +187,9 @@ def multi_worker(args):
             cases = [c12.eff_case(mc, i) for i in range(len(Bs))]
             if when != "fresh":
                 Bs[0].ocp.sample(Bs[0].ocp.t, grid="control")
+            if late is not None and when != "fresh":
+                i_, slot_, v_ = late          # a sub-stage parameter reset on the transcribed OCP, before saving
+                Bs[i_].ocp.set_value(Bs[i_].S["p"][slot_], float(Fr(v_)))
             if when == "solved":
                 try:
                     master.solve_limited()
@@ -206,12 +225,39 @@ def multi_worker(args):
 
 def run_multi(seed, n, jobs, name):
     cps = c12.gen_cases(seed + 1800, n, c12.OPTS, 2)
-    items = [(mc, pts, ["fresh", "transcribed", "solved"][i % 3]) for i, (mc, pts) in enumerate(cps)]
+    rng = random.Random(seed * 31 + 18)
+    items, cps_model = [], []
+    for i, (mc, pts) in enumerate(cps):
+        when = ["fresh", "transcribed", "solved"][i % 3]
+        late, mcm = None, mc
+        if when != "fresh":
+            cand = [(j, sl) for j in range(len(mc["stages"])) for sl in c13.scalar_param_slots(c12.eff_case(mc, j))
+                    if c12.eff_case(mc, j).get("T", {}).get("param") != sl]
+            if cand:
+                j, sl = rng.choice(cand)
+                v = jq(dyadic(rng, -2, 2, 2))
+                late = (j, sl, v)
+                mcm = copy.deepcopy(mc)           # what the saved problem must be
+                st = mcm["stages"][j]
+                if st.get("case") is not None:
+                    st["case"]["param_values"]["p"][sl] = v
+                else:
+                    pv = copy.deepcopy(c12.eff_case(mc, j)["param_values"])
+                    pv["p"][sl] = v
+                    st["param_values"] = pv
+        ptsm = pts
+        if late is not None:
+            # parameter values travel with the semantic points on the model side
+            ptsm = copy.deepcopy(pts)
+            for q in ptsm:
+                q["stages"][late[0]]["P"][late[1]] = late[2]
+        items.append((mc, pts, when, late))
+        cps_model.append((mcm, ptsm))
     with mp.get_context("fork").Pool(min(jobs, max(1, len(items)))) as pool:
         rr = pool.map(multi_worker, items, chunksize=1)
-    mv = c12.model_multi(cps, [r.get("inputs") for r in rr], name)
+    mv = c12.model_multi(cps_model, [r.get("inputs") for r in rr], name)
     dis, ok = [], 0
-    for i, ((mc, pts, when), r) in enumerate(zip(items, rr)):
+    for i, ((mc, pts, when, late), r) in enumerate(zip(items, rr)):
         d = []
         if "error" in r:
             if any(s_ in r["error"] for s_ in SKIP) or "constant middle" in r["error"]:
@@ -233,7 +279,7 @@ def run_multi(seed, n, jobs, name):
                     if dd:
                         d = [{"what": "the loaded multi-stage OCP's NLP differs from the Rocq model", "detail": dd[:3]}]
         if d:
-            dis.append({"property": PID, "what": d[:2], "case": {"multi": mc, "when": when}, "points": pts, "finding_key": None})
+            dis.append({"property": PID, "what": d[:2], "case": {"multi": mc, "when": when, "late": late}, "points": pts, "finding_key": None})
         else:
             ok += 1
     return dis, ok, len(items)
@@ -314,6 +360,8 @@ def run_items(items, name, jobs=16):
                 d.append({"what": "saving altered the original's declaration (accessors / method)", "before": s0, "after": s1})
             if s0 != s2:
                 d.append({"what": "the loaded OCP's accessors or method differ from the original's", "original": s0, "loaded": s2})
+            if r.get("membership_failures"):
+                d.append({"what": "symbols of the loaded OCP are not members of their own accessor lists", "lists": r["membership_failures"]})
             if not r.get("orig_solvable"):
                 d.append({"what": "the original cannot be solved after saving", "error": r.get("orig_solve_error")})
             if not d:
@@ -365,7 +413,7 @@ def replay(path):
     d = json.load(open(path))
     c = d["case"]
     if "multi" in c:
-        r = multi_worker((c["multi"], d["points"], c["when"]))
+        r = multi_worker((c["multi"], d["points"], c["when"], c.get("late")))
         print(json.dumps({k: v for k, v in r.items() if k in ("error", "trace", "nstages")}, indent=1)[:3000])
         return 1 if "error" in r else 0
     dis, _, _, _ = run_items([(c["case"], c["when"], c["calls"], d["points"], c.get("edit"), c.get("late"))], PID + "r", 1)
